@@ -699,6 +699,30 @@ def post_c12(outputs, all_lines):
     return fails, len(dig) // 2
 
 
+def widen_c14(panel_names, tier, seed):
+    """a hashed RGB domain disagrees with the model: single values on a 17-step grid of the cube,
+    the neighbourhood of every palette colour and of the grey / orange entries, judged one by one
+    (brightness-nearest for Color, minimal squared distance for OctColor)"""
+    vals = []
+    g = list(range(0, 256, 15))
+    for r in g:
+        for gg in g:
+            for b in g:
+                vals.append((r, gg, b))
+    pal = [(0, 0, 0), (255, 255, 255), (0, 255, 0), (0, 0, 255), (255, 0, 0), (255, 255, 0), (255, 128, 0), (128, 128, 128)]
+    for (r, gg, b) in pal:
+        for d in (-3, -1, 1, 3):
+            for ch in range(3):
+                v = [r, gg, b]
+                v[ch] = min(255, max(0, v[ch] + d))
+                vals.append(tuple(v))
+    vals += [(127, 127, 127), (0, 66, 129), (0, 255, 255), (191, 191, 191), (64, 64, 64), (127, 128, 128), (190, 190, 190), (192, 192, 192)]
+    lines = []
+    for i in range(0, len(vals), 60):
+        lines.append(pure_line(f"w14-{i // 60}", [f"color,rgbone,888,{r},{gg},{b}" for (r, gg, b) in vals[i:i + 60]]))
+    return lines
+
+
 def widen_c05(panel_names, tier, seed):
     """search around a broken correspondence: every (mode prefix, A, B) of the panel's alphabet,
     every episode at least one poll long, every idle-delay class"""
@@ -884,7 +908,7 @@ PROPS = {
         "assumptions": [],
     },
     "C14": {
-        "props": ["C14"], "view": "raw", "gen": gen_c14,
+        "props": ["C14"], "view": "raw", "gen": gen_c14, "widen": "widen_c14",
         "rule": "every domain of the colour API printed by the real functions: all 256 bytes (from_u8, from_nibble, split_byte), all colours (bit/byte/nibble/rgb/inverse), all 64 pairs, bitmask for 16 positions x 2 bwrbit x 13 colours, all raw values, BinaryColor, all 65536 Rgb565 and 32768 Rgb555 values, Rgb888: 4 strided samples of 275k values (quick) / all 2^24 (thorough); compared with the model and checked by the oracle (round trips, brightness-nearest spec); non-trivial = every op (each covers a whole domain)",
         "assumptions": ["embedded-graphics RGB types expose raw channel values r(),g(),b() with maxima 255/31/63 (documented contract)"],
     },
